@@ -31,6 +31,9 @@ pub uninterp spec fn trimmed(s: Seq<char>) -> Seq<char>;
 impl Decoded {
     #[verifier::external_body]
     pub fn as_ref(&self) -> (r: &str) ensures r@ == self.text@ { unimplemented!() }
+    /// Cow<str>::into_owned / to_string: the same text
+    #[verifier::external_body]
+    pub fn into_owned(self) -> (r: String) ensures r@ == self.text@ { unimplemented!() }
     /// (Cow<str> derefs to str: so that a `trim()` slipped in is decided, not refused)
     #[verifier::external_body]
     pub fn trim(&self) -> (r: &str) ensures r@ == trimmed(self.text@) { unimplemented!() }
